@@ -7,13 +7,27 @@ import inspect
 from bind_gen import DFLT, NAME_ID, canon_frame, kw_line, make_function, sig_line
 
 
+class FalsyInt(int):
+    """an argument value that is falsy (like 0, '' or None) but keeps its identity as a token"""
+
+    def __bool__(self):
+        return False
+
+
+def _vals(args, kw):
+    """every second token is passed as a falsy object: no decision of the binder may depend on truthiness"""
+    w = lambda v: FalsyInt(v) if isinstance(v, int) and not isinstance(v, bool) and v % 2 == 0 else v
+    return tuple(w(a) for a in args), {k: w(v) for k, v in dict(kw).items()}
+
+
 def impl_direct(f, args, kw):
     """`callable_method(f)(*args, **kw)`: the adapter every resolved callback is wrapped in
     (`SignatureAdapter.from_callable(f).bind_expected` + `f(*ba.args, **ba.kwargs)`)"""
     from statemachine.dispatcher import callable_method
     try:
         w = callable_method(f)
-        r = w(*args, **dict(kw))
+        a2, k2 = _vals(args, kw)
+        r = w(*a2, **k2)
         if inspect.isawaitable(r):
             r = asyncio.run(_await(r))
         return canon_frame(r)
@@ -25,7 +39,8 @@ def impl_two_step(f, args, kw):
     """the same through the two internal entry points, when importable (DESIGN 5.3)"""
     from statemachine.signature import SignatureAdapter
     try:
-        ba = SignatureAdapter.from_callable(f).bind_expected(*args, **dict(kw))
+        a2, k2 = _vals(args, kw)
+        ba = SignatureAdapter.from_callable(f).bind_expected(*a2, **k2)
         r = f(*ba.args, **ba.kwargs)
         if inspect.isawaitable(r):
             r = asyncio.run(_await(r))
